@@ -154,6 +154,7 @@ MUTANTS += [
  ('C10', 'pr-cmp-ignores-database-name', 'ConflictResolution.py', "                self.database_name == other.database_name and\n", ""),
  ('C10', 'pr-cmp-weak-compares-equal', 'ConflictResolution.py', "                not self.weak and\n                not other.weak):", "                True):"),
  ('C10', 'pr-cmp-unequal-instead-of-error', 'ConflictResolution.py', "            raise ValueError(\n                \"can't reliably compare against different \"\n                \"PersistentReferences\")", "            return 1"),
+ ('C04', 'deleteobject-accepts-stale-serial', FS, "            if oldserial != committed_tid:\n                raise ConflictError(\n                    oid=oid, serials=(committed_tid, oldserial))\n\n            pos = self._pos\n            here = pos + self._tfile.tell() + self._thl\n            self._tindex[oid] = here\n            new = DataHeader(oid, self._tid, old, pos, 0, 0)", "            pos = self._pos\n            here = pos + self._tfile.tell() + self._thl\n            self._tindex[oid] = here\n            new = DataHeader(oid, self._tid, old, pos, 0, 0)"),
  ('C09', 'time-travel-uses-index-regress', FS, "        r = None if time_travel else self._restore_index()", "        r = self._restore_index()"),
  ('C11', 'close-precheck-regress', 'Connection.py', "                if connection is not self and not connection._needs_to_join:\n                    raise ConnectionStateError(\n                        \"Cannot close a connection joined to a transaction\")", "                pass"),
  ('C13', 'tmpstore-f20-regress', CONN, "        targetname = self._getCleanFilename(oid, self.index[oid])", "        targetname = self._getCleanFilename(oid, 0)"),
